@@ -1,5 +1,5 @@
 (* Center.v — executable model of abel/tools/center.py
-     set_center    (center.py:176-347)
+     set_center    (center.py:176-350)
      center_image  (center.py:60-173)
    Whole-pixel centring (order = 0 or integral origin) moves pixel values only,
    so that part (set_center_int) is polymorphic in the pixel type with a single
@@ -35,7 +35,7 @@ Definition slice_bounds (n : nat) (s e : Z) : nat * nat :=
 Definition pyslice (X : Type) (s e : Z) (l : list X) : list X :=
   let '(s', len) := slice_bounds (length l) s e in firstn len (skipn s' l).
 
-(* ---- origin preprocessing, center.py:243-267 ------------------------------ *)
+(* ---- origin preprocessing, center.py:242-270 ------------------------------ *)
 (* int(x): truncation towards zero *)
 Definition qtrunc (q : Q) : Z := Z.quot (Qnum q) (Zpos (Qden q)).
 (* Python 3 round(x): to nearest, ties to even *)
@@ -56,7 +56,7 @@ Definition prep_axis (n : nat) (order : nat) (o : Q) : Z * Q :=
   end.
 
 (* ---- one axis, whole pixels ------------------------------------------------ *)
-(* 'maintain_size', center.py:284-297: source and destination slices *)
+(* 'maintain_size', center.py:287-300: source and destination slices *)
 Definition ms_bounds (n : nat) (o : Z) : (nat * nat) * (nat * nat) :=
   let nz := Z.of_nat n in
   let delta := (Z.of_nat (n / 2) - o)%Z in
@@ -82,13 +82,13 @@ Section Axis.
     let mid := if Nat.eqb sl dl then src else repeat (hd z src) dl in
     repeat z ds ++ mid ++ repeat z (n - ds - dl).
 
-  (* 'valid_region', center.py:323-330 *)
+  (* 'valid_region', center.py:325-333 *)
   Definition vr_axis (o : Z) (l : list X) : list X :=
     let o_ := (Z.of_nat (length l) - 1 - o)%Z in
     let d := Z.min o o_ in
     pyslice (o - d) (o + d + 1) l.
 
-  (* 'maintain_data', center.py:335-343 *)
+  (* 'maintain_data', center.py:337-346 *)
   Definition md_axis (z : X) (o : Z) (l : list X) : list X :=
     let o_ := (Z.of_nat (length l) - 1 - o)%Z in
     let d := Z.max o o_ in
@@ -170,7 +170,7 @@ Section Lin.
 
   Definition qfrac (s : Q) : Q := (s - inject_Z (Qfloor s))%Q.
 
-  (* center.py:275-283 (maintain_size) and 301-320 (other modes) with order=1.
+  (* center.py:278-286 (maintain_size) and 304-324 (other modes) with order=1.
      p0, p1: preprocessed components (None when the origin component is None
      or the axis is not in axes, center.py:250-251). *)
   Definition set_center_lin (data : img) (p0 p1 : option (Z * Q)) (cr : crop)
